@@ -865,12 +865,20 @@ class Engine:
             if d and x.args:
                 p = self.qualify(x.fn, d)
                 rv = self.value_of(E, x.args[0])
-                if self.trackable(p):
+                if d.startswith('SL:') and p in E.store:
+                    pass            # a static local is initialised once: a later call finds what the earlier one left
+                elif self.trackable(p):
                     E.set(p, rv)
-                self.hooks.on_assign(E, x, p, rv)
+                    self.hooks.on_assign(E, x, p, rv)
+                else:
+                    self.hooks.on_assign(E, x, p, rv)
             elif d:
                 p = self.qualify(x.fn, d)
-                E.store.pop(p, None)
+                if d.startswith('SL:'):
+                    if p not in E.store and self.trackable(p) and not any(q.startswith(p) for q in E.store) and '[' not in (n.get('t') or '') and 'struct' not in (n.get('t') or ''):
+                        E.set(p, fs(0))      # a static scalar without initialiser starts as 0 and keeps what earlier calls stored
+                else:
+                    E.store.pop(p, None)
         elif k == 'cond':
             a = self.value_of(E, x.args[1]) if x.args[1] is not None else TOP
             b = self.value_of(E, x.args[2]) if x.args[2] is not None else TOP
